@@ -111,6 +111,15 @@ class ExprGen(object):
             def side():
                 return self.amp(d - 1) if r.random() < 0.7 else ('str', r.choice(TEXTS))
             return ('cmp', op, side(), side())
+        if self.allow_amp and not numeric_only and r.random() < 0.12:
+            # a number against an & chain that SPELLS that number (or its neighbour): text all the same
+            n = r.choice([12, 7, 105, 30, 2024, 11])
+            digits = str(n + r.choice([0, 0, 0, 1]))
+            k = r.randint(1, len(digits) - 1) if len(digits) > 1 else 1
+            chain = ('amp', [('int', int(digits[:k]))] + ([('int', int(digits[k:]))] if digits[k:] and not digits[k:].startswith('0') else [('str', digits[k:])]))
+            self.leaves += 3
+            num = ('int', n) if r.random() < 0.6 else ('bin', '+', ('int', n - 5), ('int', 5))
+            return ('cmp', op, num, chain) if r.random() < 0.5 else ('cmp', op, chain, num)
         if r.random() < 0.08:
             # whole numbers beyond 2**53, one apart: exact as integers, indistinguishable as doubles
             base = r.choice([2 ** 53, 2 ** 53 + 2, 10 ** 17, 3 ** 35, 2 ** 64])
